@@ -544,7 +544,10 @@ pub fn months(mode: &str, seed: u64, out: &str) {
         q = vec![];
     }
     // (c) add_months with Act: covering classes (start month x offset mod 12 x sign x |offset|>=12) x roll kinds x years
-    let years: &[i32] = if mode == "quick" { &[2000, 2023] } else { &[1999, 2000, 2023, 2024, 2100, 2150] };
+    // (the first and the last years of the supported range are start years too: results in 1970 and in 2200 are valid)
+    let years: &[i32] = if mode == "quick" { &[1971, 2000, 2023, 2199] } else { &[1970, 1971, 1999, 2000, 2023, 2024, 2100, 2150, 2199, 2200] };
+    // every other month goes through the Python-facing `NamedCal.add_months` instead of the trait method
+    let py_all = PyNamed(all.clone());
     let offsets: Vec<i32> = {
         let mut v: Vec<i32> = (-40..=40).collect();
         for k in [48, 60, 120, 240, 1200] {
@@ -577,8 +580,9 @@ pub fn months(mode: &str, seed: u64, out: &str) {
                         vec![RollDay::Unspecified {}, *r.pick(&rolls), *r.pick(&rolls)]
                     };
                     for roll in picks.iter() {
-                        let (oc, rr) = date_out(guard(|| all.add_months(&dn(d), mo, &Modifier::Act, roll, false)));
-                        q.push(json!({"f":"add_months_raw","d":d,"mo":mo,"roll":roll_json(roll),"o":oc,"r":rr}));
+                        let (oc, rr) = if m % 2 == 0 { date_out(guard(|| py_all.add_months(&dn(d), mo, &Modifier::Act, roll, false))) }
+                                       else { date_out(guard(|| all.add_months(&dn(d), mo, &Modifier::Act, roll, false))) };
+                        q.push(json!({"f":"add_months_raw","d":d,"mo":mo,"roll":roll_json(roll),"via": if m % 2 == 0 { "py" } else { "core" },"o":oc,"r":rr}));
                     }
                 }
             }
